@@ -1,5 +1,6 @@
 SPECIFICATION Spec
-INVARIANT AllYielded PerServiceOrder TerminalRule NothingAfterEnd OneTerminal NoEarlyEnd
+INVARIANT AllYielded PerServiceOrder TerminalRule NothingAfterEnd OneTerminal NoEarlyEnd ReleasedOnlyWhenDone AllReleasedAtEnd
+VIEW View
 CHECK_DEADLOCK FALSE
 CONSTANTS
   ExtraPolls = 3
